@@ -312,17 +312,15 @@ func ruleWebVTTSettings(p *Prog, l *Ledger, tier string) {
 			}
 		}
 	}
-	var itemsHeader *ssa.BasicBlock
+	var itemsHeaders []*ssa.BasicBlock
 	for _, li := range loopsOf(wr) {
-		// the loop whose header compares against len(s.Items)
+		// every loop whose header compares against len(s.Items)
 		for _, ins := range li.header.Instrs {
 			if bo, ok := ins.(*ssa.BinOp); ok {
 				if c, ok := bo.Y.(*ssa.Call); ok {
 					if bi, ok := c.Call.Value.(*ssa.Builtin); ok && bi.Name() == "len" {
-						if _, f, _ := loadedField(c.Call.Args[0]); f == "Items" {
-							if t, _, _ := loadedField(c.Call.Args[0]); t == "Subtitles" {
-								itemsHeader = li.header
-							}
+						if t, f, _ := loadedField(c.Call.Args[0]); f == "Items" && t == "Subtitles" {
+							itemsHeaders = append(itemsHeaders, li.header)
 						}
 					}
 				}
@@ -331,7 +329,7 @@ func ruleWebVTTSettings(p *Prog, l *Ledger, tier string) {
 	}
 	key := "E12.G3-regions-before-cues"
 	switch {
-	case regionBlock == nil || itemsHeader == nil:
+	case regionBlock == nil || len(itemsHeaders) == 0:
 		l.Undecide(key, "Subtitles.WriteToWebVTT", key, "", "extraction-below-minimum: region emission or cue loop not found")
 	default:
 		// the loop containing the region emission must be left before the cue loop starts
@@ -345,7 +343,13 @@ func ruleWebVTTSettings(p *Prog, l *Ledger, tier string) {
 		if rh != nil {
 			lp = loopOf(rh)
 		}
-		if rh != nil && rh.Dominates(itemsHeader) && !lp[itemsHeader] {
+		allAfter := rh != nil
+		for _, ih := range itemsHeaders {
+			if rh == nil || !rh.Dominates(ih) || lp[ih] {
+				allAfter = false
+			}
+		}
+		if allAfter {
 			l.Prove(key, "Subtitles.WriteToWebVTT", key, blockPos(p, regionBlock), "the region loop is complete before the cue loop starts: a cue's region is always defined earlier in the file")
 		} else {
 			l.Fail(key, "Subtitles.WriteToWebVTT", key, blockPos(p, regionBlock), "region definitions are not all emitted before the first cue")
